@@ -504,8 +504,20 @@ func runExport(t *testing.T, rc *RunCtx) {
 		inst.Close()
 		return
 	}
-	// 2. Clean shutdown and restart retain it; 3. the CLI export agrees.
-	inst.Close()
+	// 2. Shutdown and restart retain it (clean shutdown, or - a third of the runs - a kill: the directory is
+	// copied as it is now and the copy is used from here on); 3. the CLI export agrees.
+	if ch.Pick(3, 0) == 2 {
+		img := NewRunDir(t)
+		if err := CopyDir(dir, img); err != nil {
+			t.Fatalf("copy: %v", err)
+		}
+		inst.Close()
+		dir = img
+		rc.Stats.Inc("crash_restarts", 1)
+	} else {
+		inst.Close()
+		rc.Stats.Inc("clean_restarts", 1)
+	}
 	cli, code, msg := cliExport(t, pop, dir)
 	if code != 0 {
 		rc.Violate("C11", "cli-export-failed", msg, 0)
